@@ -36,7 +36,8 @@ EXTENDS Integers, Sequences, FiniteSets, TLC, Json, IOUtils, XData
               step commands are not judged)
    as plain definitions, so that TLC evaluates them once. *)
 CONSTANTS MaxCmd, MaxBps, MaxBk,
-          Lifecycle     \* TRUE: histories may restart and quit (C11)
+          Lifecycle,    \* TRUE: histories may restart and quit (C11)
+          Signals       \* TRUE: histories may send SIGUSR1 to the stopped program
 
 N == Len(X)
 Exited == N + 1
